@@ -386,6 +386,9 @@ func joinNames(aName, bName string, aNames, bNames []string) []string {
 	if aName != bName {
 		ret = append(ret, aName, bName)
 	}
+	// Keep the names accumulated so far: they must not be lost when the two
+	// branches of a later conditional agree on the current name.
+	ret = append(ret, aNames...)
 	aNamesSet := make(map[string]bool)
 	for _, name := range aNames {
 		aNamesSet[name] = true
